@@ -316,6 +316,20 @@ type fileCtx struct {
 // analyse finds, per function containing a `go` closure, the closure's free variables declared in
 // the enclosing function that are written after their declaration.
 // root returns the identifier at the bottom of a selector/index chain (x in x.f[i].g).
+// unslice strips slice expressions: x.f[2:] -> x.f
+func unslice(e ast.Expr) ast.Expr {
+	for {
+		switch v := e.(type) {
+		case *ast.SliceExpr:
+			e = v.X
+		case *ast.ParenExpr:
+			e = v.X
+		default:
+			return e
+		}
+	}
+}
+
 func root(e ast.Expr) *ast.Ident {
 	for {
 		switch v := e.(type) {
@@ -366,6 +380,15 @@ func (c *fileCtx) analyse() {
 				}
 			}
 		case *ast.CallExpr:
+			// copy(x.f[i:], ...), delete(x.m, k), clear(x.s): the builtin writes through its first
+			// argument - a write of the package-level variable the argument is rooted at
+			if id, ok := s.Fun.(*ast.Ident); ok && id.Obj == nil && (id.Name == "copy" || id.Name == "delete" || id.Name == "clear") && len(s.Args) > 0 {
+				if r := root(unslice(s.Args[0])); r != nil {
+					if _, ok := pkgVarOf(r); ok {
+						c.pkgWrites[r] = true
+					}
+				}
+			}
 			// atomic.AddInt32(&x, 1): the address is consumed by the atomic operation itself, which
 			// orders the access; it is a (stamped) read of x, not an escaping write
 			if se, ok := s.Fun.(*ast.SelectorExpr); ok {
@@ -486,6 +509,12 @@ func (c *fileCtx) analyse() {
 			case *ast.IncDecStmt:
 				if se := bottom(x.X); se != nil {
 					c.fieldWrite[se] = true
+				}
+			case *ast.CallExpr:
+				if id, ok := x.Fun.(*ast.Ident); ok && id.Obj == nil && (id.Name == "copy" || id.Name == "delete" || id.Name == "clear") && len(x.Args) > 0 {
+					if se := bottom(unslice(x.Args[0])); se != nil {
+						c.fieldWrite[se] = true
+					}
 				}
 			case *ast.UnaryExpr:
 				if x.Op == token.AND {
